@@ -2,6 +2,7 @@ package main
 
 import (
 	"fmt"
+	"go/constant"
 	"go/token"
 	"go/types"
 	"reflect"
@@ -540,15 +541,53 @@ func c20R2(a *A, marshalers map[string]*ssa.Function) {
 func c20R3(a *A) {
 	const rule = "C20-R3"
 	w := a.W
-	initFn := w.Root.Func("init")
+	// the names, as the String() methods produce them: each method is specialised on every constant of its type (switch,
+	// table lookup and if-chain forms all evaluate the same way); the fallback text is what an unlisted value gives
 	tables := map[string]map[int64]string{}
-	for _, gn := range []string{"columnTypeStrings", "statementStrings"} {
-		g := w.Root.Var(gn)
-		if g == nil {
-			continue
+	fallback := map[string]string{}
+	for tn, gn := range map[string]string{"ColumnType": "columnTypeStrings", "StatementType": "statementStrings"} {
+		m := w.method(w.Root, tn, "String")
+		if !a.need(m != nil, rule, tn+".String") {
+			return
 		}
-		if t := intStringTable(initFn, g, 0); len(t) > 0 {
-			tables[gn] = t
+		a.touch(m)
+		eval := func(k int64) (string, bool) {
+			res := Specialize(m, map[ssa.Value]constant.Value{m.Params[0]: constant.MakeInt64(k)}, nil)
+			a.Evals++
+			out, n := "", 0
+			for _, ret := range res.Returns {
+				l := res.get(ret.Results[0])
+				if l.k != cst || l.v == nil || l.v.Kind() != constant.String {
+					return "", false
+				}
+				sv := constant.StringVal(l.v)
+				if n > 0 && sv != out {
+					return "", false
+				}
+				out = sv
+				n++
+			}
+			return out, n > 0
+		}
+		fb, okFB := eval(0x7fff)
+		if !okFB {
+			// the table is computed at start-up (e.g. by inverting another table): read it from the package initialiser
+			if g := w.Root.Var(gn); g != nil {
+				if t := intStringTable(w.Root.Func("init"), g, 0); len(t) > 0 {
+					tables[gn], fallback[gn] = t, "unknown"
+					continue
+				}
+			}
+		}
+		if !a.need(okFB, rule, "fallback text of "+tn+".String") {
+			return
+		}
+		fallback[gn] = fb
+		tables[gn] = map[int64]string{}
+		for k := int64(-1); k < 256; k++ {
+			if sv, ok := eval(k); ok && sv != fb {
+				tables[gn][k] = sv
+			}
 		}
 	}
 	// column types: every replication.Type* has a columnType* constant of equal value with a name
@@ -587,31 +626,12 @@ func c20R3(a *A) {
 				dup = v
 			}
 			seen[v] = k
-			if v == "unknown" {
+			if v == fallback[gn] {
 				ok = false
 				dup = v
 			}
 		}
 		a.check(ok, rule, "distinct@"+gn, "-", fmt.Sprintf("%d distinct names", len(t)), fmt.Sprintf("name %q is used twice (or equals the fallback): two kinds become indistinguishable in the JSON", dup))
-	}
-	// String() methods look the tables up by the receiver
-	for tn, gn := range map[string]string{"ColumnType": "columnTypeStrings", "StatementType": "statementStrings"} {
-		m := w.method(w.Root, tn, "String")
-		if !a.need(m != nil, rule, tn+".String") {
-			continue
-		}
-		a.touch(m)
-		ok := false
-		instrs(m, func(in ssa.Instruction) {
-			if l, isL := in.(*ssa.Lookup); isL && l.Index == ssa.Value(m.Params[0]) {
-				if u, isU := l.X.(*ssa.UnOp); isU {
-					if g, isG := u.X.(*ssa.Global); isG && g.Name() == gn {
-						ok = true
-					}
-				}
-			}
-		})
-		a.check(ok, rule, "lookup@"+tn+".String", w.pos(m.Pos()), "looks its own value up in "+gn, tn+".String() does not look the receiver up in "+gn)
 	}
 }
 
